@@ -59,6 +59,7 @@ theorem emit_rebuild (tbl : Tables) : ∀ (v : Val) (m : Mode) (ty : String) (l 
   | scalar s => intro m ty l h; simp [emit] at h; cases h; rfl
   | blob => intro m ty l h; simp [emit] at h
   | plainPtr => intro m ty l h; simp only [emit] at h; split at h <;> cases h
+  | unnamed => intro m ty l h; simp [emit] at h
   | obj oty hn fields ih =>
     intro m ty l h
     simp only [emit] at h
@@ -107,6 +108,7 @@ theorem erase_of_no_drop (tbl : Tables) : ∀ (v : Val) (m : Mode) (ty : String)
   | scalar s => intros; rfl
   | blob => intros; rfl
   | plainPtr => intros; rfl
+  | unnamed => intros; rfl
   | obj oty hn fields ih =>
     intro m ty h
     simp only [dropped, List.append_eq_nil_iff] at h
@@ -184,6 +186,7 @@ theorem no_crash (tbl : Tables) (hp : tbl.ptrAssertUnchecked = false) :
   | scalar s => intro m ty h; simp [emit] at h
   | blob => intro m ty h; simp [emit] at h
   | plainPtr => intro m ty h; simp [emit, hp] at h
+  | unnamed => intro m ty h; simp [emit] at h
   | obj oty hn fields ih =>
     intro m ty h
     simp only [emit, objWrap] at h
@@ -228,6 +231,7 @@ theorem no_crash_of_noPlainPtr (tbl : Tables) :
   | scalar s => intro m ty _ h; simp [emit] at h
   | blob => intro m ty _ h; simp [emit] at h
   | plainPtr => intro m ty hnp; simp [noPlainPtr] at hnp
+  | unnamed => intro m ty _ h; simp [emit] at h
   | obj oty hn fields ih =>
     intro m ty hnp h
     simp only [noPlainPtr] at hnp
